@@ -1,6 +1,7 @@
 package verifsim
 
 import (
+	"strings"
 	"crypto/sha256"
 	"encoding/json"
 	"fmt"
@@ -141,6 +142,10 @@ func doRuns(e *Engine, job *Job, out *WorkerOut, start time.Time) {
 		if out.SeedDigests != nil {
 			if i >= 0 {
 				out.SeedDigests[fmt.Sprint(i)] = res.Digest
+				if d := os.Getenv("VERIF_DUMP_TRACES"); d != "" {
+					_ = os.MkdirAll(d, 0o755)
+					_ = os.WriteFile(filepath.Join(d, fmt.Sprintf("%d.txt", i)), []byte(strings.Join(res.Trace, "\n")+"\n"), 0o644)
+				}
 			}
 		}
 		digs[res.ShapeDig[:16]] = true
